@@ -147,9 +147,13 @@ def c06(tier):
     P = machine.PairScenario
     if tier == "quick":
         return [P("dn2", "dn", 2), P("un3", "un", 3), P("dl2", "dl", 2, labels=(0, 1), reps=1),
+                # 4 vertices, all edges of each object leaving one vertex
+                P("dn4s", "dn", 4, ops=["addEdge", "removeEdge"], initn=4, constraints=["SingleSource"], reps=1),
                 P("ul2", "ul", 2, labels=(0, 1), reps=1), P("dm2", "dm", 2, mults=(0, 1, 2), maxmult=2, reps=1),
                 P("um2", "um", 2, mults=(0, 1, 2), maxmult=2), P("dw2", "dw", 2), P("uw2", "uw", 2)]
     return [P("dn3", "dn", 3, walk=False, workers=16), P("dn2", "dn", 2, reps=4), P("un3", "un", 3, reps=4),
+            P("dn5s", "dn", 5, ops=["addEdge", "removeEdge"], initn=5, constraints=["SingleSource"], reps=1, workers=8),
+            P("un5s", "un", 5, ops=["addEdge", "removeEdge"], initn=5, constraints=["SingleSource"], walk=False, workers=8),
             P("dl2", "dl", 2, labels=(0, 1, 2), reps=2), P("ul3", "ul", 3, labels=(0, 1), walk=False, workers=16),
             P("ul2", "ul", 2, labels=(0, 1, 2), reps=3),
             P("dm2", "dm", 2, mults=(0, 1, 2, 3), maxmult=3, reps=3), P("um2", "um", 2, mults=(0, 1, 2, 3), maxmult=3, reps=3),
